@@ -12,14 +12,22 @@ LEVEL = 'exploration'
 TECHNIQUE = ('plan run (full_parse=False, ProcessingStrategy.PLAN, write_cmake_plan) vs. real conversion '
              '(full parse, SEQUENCE, FileWriteTransformation) of the same generated project/config/pipeline; plan lists '
              'compared with the files actually written and their origins')
-RULE = ('case = (project description, config with roles / replicate / lib / mode / ignore / block, pipeline drawn from '
-        '{DependencyTransformation, ModuleWrapTransformation, DuplicateKernel(+subgraph), RemoveKernel} (0-2 entries) '
-        'followed by FileWriteTransformation(suffix, include_module_var_imports), output_dir or in-place, rootpath '
-        'absolute or relative). non-trivial = (>=1 replicated and >=1 replaced file) or an item-creating / renaming '
-        'transformation in the pipeline, and >= 2 files written; distinct by JSON hash')
-ASSUMPTIONS = ['the real conversion (run B) defines which files are written; origin of a written file = the generated source '
+RULE = ('case = (project description - half of them "plain": one unit per file, no types/interfaces/renamed imports -, '
+        'config with roles / replicate / lib / mode / ignore / block, pipeline of 0-2 steps drawn from '
+        '{ModuleWrapTransformation (plain projects), DuplicateKernel(+subgraph), RemoveKernel} followed by '
+        'FileWriteTransformation(suffix, include_module_var_imports), output_dir or in-place, rootpath absolute or relative). '
+        'APPEND == files written; TRANSFORM == originals a written file derives from (same stem, or the file of the '
+        'duplicated kernel); REMOVE == originals of which a transformed version was written and no processed item is '
+        'replicated; per-lib lists are disjoint sub-lists. non-trivial = >= 2 files written and (non-empty pipeline or some but '
+        'not all replaced files replicated); distinct by JSON hash')
+ASSUMPTIONS = ['the fresh conversion (run B) defines which files are written; origin of a written file = the generated source '
                'file with the same stem (stems are unique by construction; a duplicated kernel derives from the kernel file)',
-               'replicated(file) = some processed item of that file has replicate=true in its (independently matched) config',
+               'replicated(file) = some non-ignored item of that file in the final conversion graph has replicate=true in its '
+               '(independently matched) config - the rule of SGraph._populate_filegraph / test_file_write_replicate',
+               'inline function calls are dependencies only with full_parse=True (documented): projects have no functions; cases '
+               'whose regex and full-parse graphs still differ before the pipeline are C21 matter and are skipped (counted)',
+               'DependencyTransformation, and kernels reached through a renamed import / declared in an interface block / matched '
+               'by ignore-block-disable entries are not drawn: listed findings, kept in replays/C24 (counted as excluded)',
                'a loki exception in either run on the generated input is a rejected input (pipelines are not total)']
 SHARDS = {'quick': 8, 'thorough': 16}
 BUDGET = {'quick': 55, 'thorough': 1200}
@@ -51,8 +59,26 @@ def dep_triggers(proj):
     return out
 
 
+def kernel_triggers(proj, conf, kernel):
+    """features of a kernel named in DuplicateKernel / RemoveKernel under which plan and conversion disagree (listed)"""
+    out = []
+    if any(s['name'] != kernel for _, r in gen.all_routines(proj) for s in r['body']
+           if s['k'] == 'call' and s['target'].split('#')[1] == kernel):
+        out.append('kernel-called-through-renamed-import')
+    if any(kernel in r.get('intfb', ()) for _, r in gen.all_routines(proj)):
+        out.append('kernel-declared-in-interface-block')
+    keys = []
+    for ent in [conf['default']] + list(conf['routines'].values()):
+        for lst in ('ignore', 'block', 'disable'):
+            keys += list(ent.get(lst, ()))
+    full = [f'{mn}#{r["name"]}' for mn, r in gen.all_routines(proj) if r['name'] == kernel]
+    if any(refgraph.match_keys(n, keys, patterns=True, parents=True) for n in full):
+        out.append('kernel-ignored-blocked-or-disabled')
+    return out
+
+
 @st.composite
-def cases(draw):
+def cases(draw, draw_dep=False):
     plain = draw(st.booleans())
     proj = draw(gen.projects(PLAIN if plain else PROFILE))
     if plain:
@@ -93,14 +119,21 @@ def cases(draw):
             if not callees:
                 continue
             k = callees[draw(st.integers(0, len(callees) - 1))].split('#')[1]
+            tags = kernel_triggers(proj, conf, k)
+            if tags:
+                skipped.append(f'{t} not drawn: {tags[0]} (listed finding)')
+                continue
             pipeline.append({'t': t, 'kernel': k, 'suffix': draw(st.sampled_from(['_dup', '_x2'])),
                              'module_suffix': draw(st.sampled_from([None, '_md']))})
-        elif trig:
-            # listed findings: the converting scheduler loses renamed items (exclusion by construction)
-            skipped.append(f'{t} not drawn: project has {trig[0]} (listed finding items-lost-after-dep)')
+        elif t == 'dep' and not draw_dep:
+            # listed finding items-become-external-after-dep (exclusion by construction; the trigger is kept in
+            # replays/C24/dep-items-become-external.json)
+            skipped.append('dep not drawn: the converting scheduler loses renamed items (listed finding)')
         elif t == 'dep':
             pipeline.append({'t': 'dep', 'suffix': draw(st.sampled_from(['_loki', '_x'])),
                              'module_suffix': draw(st.sampled_from([None, '_mod']))})
+        elif trig:
+            skipped.append(f'wrap not drawn: project has {trig[0]}')
         else:
             pipeline.append({'t': 'wrap', 'module_suffix': '_mod'})
     # documented order: ModuleWrapTransformation is applied before DependencyTransformation
@@ -188,9 +221,10 @@ def run_both(case, wd, pipeline=None):
         if n_now > n_ext and lost_after is None:
             lost_after = spec['t']
         n_ext = n_now
+    post_b = snapshot(sb)
     sb.process(FileWriteTransformation(**case['fw']), proc_strategy=ProcessingStrategy.SEQUENCE)
     written = {os.path.normpath(pth) for pth in listing(wd.dir) - before}
-    return {'plan': plan, 'written': written, 'pre_a': pre_a, 'pre_b': pre_b, 'lost_after': lost_after}
+    return {'plan': plan, 'written': written, 'pre_a': pre_a, 'pre_b': pre_b, 'post_b': post_b, 'lost_after': lost_after}
 
 
 def domain_exclusion(case, obs):
@@ -224,11 +258,15 @@ def judge(case, obs, wdir, originals):
     replaced = {stems[stem(pth)] for pth in written if stem(pth) in stems}
     dup_from = {dup_origin[stem(pth)] for pth in written if stem(pth) not in stems and stem(pth) in dup_origin}
     origins = replaced | dup_from
-    # replicate flags from the configuration (independent key matching) of the items the conversion starts from
+    # replicate flags from the configuration (independent key matching) of the items the conversion ends with
+    # (an item that a transformation renamed is looked up under the name it had before the pipeline)
+    before = {(path, n.split('#')[-1]): n for n, (kind, ign, path) in obs['pre_b'].items() if path}
     rep = set()
-    for n, (kind, ign, path) in obs['pre_b'].items():
-        if path and not ign and refgraph.item_config(cfg['config'], n).get('replicate'):
-            rep.add(path)
+    for n, (kind, ign, path) in obs['post_b'].items():
+        if path and not ign:
+            names = {n, before.get((path, n.split('#')[-1]), n)}
+            if any(refgraph.item_config(cfg['config'], m).get('replicate') for m in names):
+                rep.add(path)
     n_rep = len([o for o in replaced if o in rep])
     info = {'n_rep': n_rep, 'n_replaced': len(replaced), 'n_dup_files': len(written) - len(replaced) - len(unknown),
             'n_written': len(written)}
@@ -342,9 +380,13 @@ def check_case(case, ctx):
     ctx.case(case, nontrivial, classes)
     if ctx.evaluations % 100 == 1:
         ctx.sample({'pipeline': case['pipeline'], 'fw': case['fw'], 'config': case['cfg'], **summary})
+    tags = sorted({tag for spec in case['pipeline'] if spec['t'] in ('dup', 'dupsub', 'remove')
+                   for tag in kernel_triggers(case['proj'], case['cfg']['config'], spec['kernel'])})
     for kind, detail in fails:
         if kind in SELF_EXPLAINING or 'items-become-external' in kind:
             ctx.fail(f'C24:{kind}', case, detail)
+        elif kind.startswith('append:') and tags:
+            ctx.fail(f'C24:append-differs:{tags[0]}', case, detail)
         else:
             ctx.fail(f'C24:{kind}:{culprit(case, kind)}', case, detail)
 
